@@ -22,6 +22,8 @@ RULE = ("seeded programs over 1-4 files (one object each) with random well-neste
         "between one and two documents): the set of buffered files is observed (keys / modified flags of "
         "Class._buffer at the quiescent point) and the arithmetic is recomputed from the model content of "
         "exactly those files; independently sum(len(entry contents)) == reported size. distinct = case hash; "
+        "Stratum conflict (directed): capacity-forced flushes that fail for a file changed outside (BufferedError), "
+        "size checked (>= 0, <= capacity, == sum over the observed entries) after every call and == 0 after the exit. "
         "non-trivial = >= 1 mutator ran while buffered.")
 ASSUMPTIONS = [
     "layer (c) peeks at Class._buffer (hooked state, read-only); if the attribute does not exist the layer "
@@ -36,7 +38,10 @@ STEPS = {"quick": 35, "thorough": 55}
 
 def plan(tier, seed):
     combos = [(c, {"wc": False, "threading": True}) for c in catalog.BUFFERED_CLASSES]
-    return common.plan_grid(tier, seed, combos, PER, STRATA, pieces=4)
+    specs = common.plan_grid(tier, seed, combos, PER, STRATA, pieces=4)
+    for c in catalog.BUFFERED_CLASSES:
+        specs.append({"cls": c.name, "stratum": "conflict", "tier": tier, "seed": seed, "cfg": {}})
+    return specs
 
 
 def make_case(spec, i):
@@ -234,7 +239,116 @@ def _nontrivial(case, sess):
     return False
 
 
+def conflict_cases(spec, out):
+    """Directed: accounting around a capacity-forced flush that fails for one file (outside change)."""
+    import shutil
+
+    from vf import boot
+    from vf.session import make_scratch
+
+    boot.boot()
+    from synced_collections.errors import BufferedError
+    info = catalog.info(spec["cls"])
+    cls = info.cls()
+    kind = info.kind
+    r = gen.rng_for(spec["seed"], "C15c", spec["cls"])
+
+    def mod(o, tag):
+        if kind == "dict":
+            o[tag] = [tag]
+        else:
+            o.append(tag)
+
+    n_cases = 40 if spec["tier"] == "quick" else 400
+    for ci in range(n_cases):
+        scratch = make_scratch()
+        catalog.reset_class_state(cls)
+        try:
+            nfiles = r.choice([2, 3, 4])
+            res = [catalog.Resource(info, scratch, f"f{i}") for i in range(nfiles)]
+            for i, x in enumerate(res):
+                x.outside_write({"i": i, "p": "x" * r.randrange(0, 30)} if kind == "dict" else [i, "x" * r.randrange(0, 30)],
+                                bump=False)
+            objs = [x.new_handle() for x in res]
+            cap = r.choice([0, 1, 1, 2]) if info.strategy == "memory" else r.choice([0, 10, 40, 80, 200])
+            trace = []
+            case = {"cls": info.name, "cap": cap, "files": nfiles, "trace": trace}
+
+            def check(where):
+                size, capn = cls.get_current_buffer_size(), cls.get_buffer_capacity()
+                out["counters"]["conflict_quiescent_checks"] = out["counters"].get("conflict_quiescent_checks", 0) + 1
+                buf = getattr(cls, "_buffer", None)
+                prob = None
+                if size < 0:
+                    prob = f"negative size {size}"
+                elif size > capn:
+                    prob = f"size {size} > capacity {capn}"
+                elif isinstance(buf, dict):
+                    try:
+                        internal = (sum(len(e["contents"]) for e in buf.values()) if info.strategy == "serialized"
+                                    else sum(1 for e in buf.values() if e["modified"]))
+                    except Exception:  # noqa: BLE001
+                        internal = size
+                    if internal != size:
+                        prob = f"size {size} but the buffer entries add up to {internal}"
+                if prob and len(out["violations"]) < 10:
+                    out["violations"].append({"sig": {"cls": info.name, "strategy": info.strategy, "kind": "size_wrong",
+                                                      "layer": "conflict", "stratum": "conflict"},
+                                              "detail": f"{info.name} cap={cap} after {where}: {prob}; trace {trace}",
+                                              "case": case})
+                    return False
+                return True
+
+            cm = cls.buffer_backend(cap)
+            cm.__enter__()
+            ok = True
+            try:
+                for step in range(r.choice([4, 6, 9])):
+                    i = r.randrange(nfiles)
+                    what = r.choice(["mod", "mod", "read", "outside", "mod"])
+                    trace.append([what, i])
+                    try:
+                        if what == "mod":
+                            mod(objs[i], f"s{step}")
+                        elif what == "read":
+                            objs[i]()
+                        else:
+                            res[i].outside_write({"o": step, "pad": "y" * 13} if kind == "dict" else ["o", step, "y" * 13],
+                                                 bump=True)
+                    except BufferedError:
+                        trace[-1].append("BufferedError")
+                        out["counters"]["conflict_errors"] = out["counters"].get("conflict_errors", 0) + 1
+                    ok = check(f"step {step} {what} f{i}")
+                    if not ok:
+                        break
+            finally:
+                try:
+                    cm.__exit__(None, None, None)
+                except BufferedError:
+                    trace.append(["exit", "BufferedError"])
+                    out["counters"]["conflict_errors"] = out["counters"].get("conflict_errors", 0) + 1
+            out["evaluations"] += 1
+            out["keys"].append(gen.case_key([info.name, "conflict", ci, spec["seed"]]))
+            if ok:
+                size = cls.get_current_buffer_size()
+                if size != 0 and len(out["violations"]) < 10:
+                    out["violations"].append({"sig": {"cls": info.name, "strategy": info.strategy, "kind": "size_not_zero",
+                                                      "stratum": "conflict"},
+                                              "detail": f"{info.name} cap={cap}: size {size} after the context exited; trace {trace}",
+                                              "case": case})
+            if not out["samples"]:
+                out["samples"].append(case)
+        finally:
+            catalog.reset_class_state(cls)
+            shutil.rmtree(scratch, ignore_errors=True)
+
+
 def run_shard(spec):
+    if spec["stratum"] == "conflict":
+        out = {"evaluations": 0, "keys": [], "violations": [], "samples": [], "counters": {}, "strata": {}}
+        conflict_cases(spec, out)
+        out["strata"]["conflict"] = {"cases": out["evaluations"], "violations": len(out["violations"]), "steps": 0}
+        return out
     return e1.run_shard(spec, make_case, nontrivial=_nontrivial, session_cls=AccountingSession)
 
 
